@@ -140,6 +140,16 @@ pub fn case(ctx: &Ctx, kind: &str, params: &Value, counting: bool) -> Result<(),
 			let (m, comp, hash, class) = forced_model(params["i"].as_u64().unwrap_or(0) as usize);
 			check(ctx, &m, comp, hash, Some(class), counting)
 		}
+		"fixture" => {
+			let dna = dna_param(params);
+			match fixture_model(&dna) {
+				Some((_, m)) => {
+					let c = dna.first().copied().unwrap_or(0);
+					check(ctx, &m, Comp::ALL[(c % 3) as usize], c & 0x80 != 0, None, counting)
+				}
+				None => Ok(()),
+			}
+		}
 		_ => {
 			let (m, comp, hash) = dna_case(&dna_param(params), &cfg(ctx));
 			check(ctx, &m, comp, hash, None, counting)
@@ -185,6 +195,19 @@ pub fn run(ctx: &Ctx) -> usize {
 	.is_some()
 	{
 		violations += 1;
+	}
+	if fixture_count() > 0 && violations == 0 {
+		if run_dna(ctx, "fixture", ctx.n(1_500, 60_000), 512, |dna, counting| match fixture_model(dna) {
+			Some((_, m)) => {
+				let c = dna.first().copied().unwrap_or(0);
+				check(ctx, &m, Comp::ALL[(c % 3) as usize], c & 0x80 != 0, None, counting)
+			}
+			None => Ok(()),
+		})
+		.is_some()
+		{
+			violations += 1;
+		}
 	}
 	// generator-gap guard: every forced class x compression cell must have been exercised
 	if violations == 0 {
